@@ -143,22 +143,21 @@ class Block2Cache:
             # under way at once and finish in any order; only the one of the
             # latest request may touch what is kept.
             mine = self._building[block_key] = object()
+            # What is kept from an earlier request is dropped right away: while
+            # this request is being answered later blocks are not served
+            # anyway, and it stays that way however this request ends without a
+            # rendering to keep (the builder raises, is cancelled, or returns
+            # something that can not be cut into blocks).
+            try:
+                del self._completes[block_key]
+            except KeyError:
+                pass
             try:
                 assembled = await response_builder()
-            except BaseException:
-                if self._building.get(block_key) is mine:
+            finally:
+                latest = self._building.get(block_key) is mine
+                if latest:
                     del self._building[block_key]
-                    # This request produced no rendering; one that is still
-                    # kept from an earlier request must not serve its later
-                    # blocks
-                    try:
-                        del self._completes[block_key]
-                    except KeyError:
-                        pass
-                raise
-            latest = self._building.get(block_key) is mine
-            if latest:
-                del self._building[block_key]
         else:
             if block_key in self._building:
                 # What is kept was rendered for an earlier request than the
@@ -191,11 +190,7 @@ class Block2Cache:
                 req.remote.maximum_payload_size,
             )
         else:
-            if latest:
-                # The complete response supersedes any earlier rendering that
-                # is still kept for serving later blocks
-                try:
-                    del self._completes[block_key]
-                except KeyError:
-                    pass
+            # A complete response to a request for the beginning leaves
+            # nothing kept: the earlier rendering went when the request
+            # arrived.
             return assembled
